@@ -38,6 +38,7 @@ ASSUMPTIONS = ["fractions.Fraction stands in as SymFrac: value term + fresh inte
                "by the solver (C-level %g, locale.atof, re, str(float)); the auxiliary grid only samples them"]
 CHUNK = 6
 MAX_PATHS = 400
+EXPLORE_BUDGET_S = 12  # (exploring the paths of one configuration takes milliseconds here; the obligations are what can be slow)
 ITEM_BUDGET_S = 150  # (a configuration of this harness normally takes well under a second; z3 occasionally needs several attempts on the non-linear ones)
 LIM = 10**9
 
